@@ -41,7 +41,7 @@ if skip_confirm and os.path.exists(f"{out_dir}/eval{idx}.json"):
     res.update({k: old[k] for k in CONFIRM if k in old})
 
 PKG = "biscuit-capi" if prop == "C19" else "biscuit-auth"
-SCR = "/tmp/scr"
+SCR = os.environ.get("SEED_SCR", "/tmp/scr")  # several confirmations can run side by side, one scratch each
 WT = f"{SCR}/wt"
 TGT = {"CARGO_TARGET_DIR": f"{SCR}/target"}
 if not skip_confirm:
